@@ -134,8 +134,28 @@ func subjectParts(f *kit.Func, e ast.Expr, env map[types.Object][]subjPart, dept
 			}
 			return out, true
 		}
-		if kit.CallIs(info, x, "strings.Join") {
-			return nil, false
+		if kit.CallIs(info, x, "strings.Join") && len(x.Args) == 2 {
+			// strings.Join([]string{a, b, c}, sep) with a literal list
+			sep, ok := kit.ConstString(info, x.Args[1])
+			lit, isLit := ast.Unparen(x.Args[0]).(*ast.CompositeLit)
+			if !ok || !isLit {
+				return nil, false
+			}
+			var out []subjPart
+			for i, el := range lit.Elts {
+				if _, isKV := el.(*ast.KeyValueExpr); isKV {
+					return nil, false
+				}
+				ps, ok := subjectParts(f, el, env, depth)
+				if !ok {
+					return nil, false
+				}
+				if i > 0 {
+					out = append(out, subjPart{lit: sep})
+				}
+				out = append(out, ps...)
+			}
+			return out, true
 		}
 		cf := f.CalleeFunc(x)
 		if cf == nil || cf.Body == nil || cf.Pkg != f.Pkg {
